@@ -103,23 +103,28 @@ def print_stmt(dev_name, items):
     head = {"screen": "PRINT", "lpt1": "LPRINT", "f1": "PRINT #1,", "f2": "PRINT #2,"}[dev_name]
     parts = []
     for it in items:
-        parts.append(lit(it[1], it[2]) if it[0] == "e" else it[0])
+        parts.append(lit(it[1], it[2]) if it[0] == "e" else (it[1] if it[0] == "f" else it[0]))
     body = " ".join(parts)
     if not body:
         return head.rstrip(",") if dev_name in ("screen", "lpt1") else head
     return head + " " + body
 
 
-def model_print(dev, items):
+def model_print(dev, items, devs=None):
     for it in items:
-        if it[0] == "e":
+        if it[0] == "f":
+            # a FUNCTION that prints on another device while this statement is half way through
+            _, name, v, inner = it
+            model_print(devs[inner[1]], inner[2])
+            dev.put(num_text("%", v))
+        elif it[0] == "e":
             if it[1] == "$":
                 dev.put(it[2])
             else:
                 dev.put(num_text(it[1], it[2]))
         elif it[0] == ",":
             dev.comma()
-    if not items or items[-1][0] == "e":
+    if not items or items[-1][0] in ("e", "f"):
         dev.newline()
 
 
@@ -296,8 +301,20 @@ def gen_history(rng):
         if rng.random() < 0.15:
             items.append((rng.choice([";", ","]),))
         for i in range(k):
-            t, v = rand_item(rng)
-            items.append(("e", t, v))
+            if rng.random() < 0.08:
+                # the value comes from a FUNCTION that itself prints on a different device
+                other = rng.choice([d for d in DEVS if d != dev])
+                inner_items = []
+                nin = rng.choice([1, 2])
+                for j in range(nin):
+                    t2, v2 = rand_item(rng)
+                    inner_items.append(("e", t2, v2))
+                    if j < nin - 1 or rng.random() < 0.4:
+                        inner_items.append((rng.choice([";", ","]),))
+                items.append(("f", "NF%d%%" % rng.randrange(10 ** 6), rng.randrange(-99, 100), ("print", other, inner_items)))
+            else:
+                t, v = rand_item(rng)
+                items.append(("e", t, v))
             if i < k - 1:
                 items.append((rng.choice([";", ",", ";", ","]),))
                 if rng.random() < 0.1:
@@ -370,6 +387,14 @@ def build_program(stmts):
             head = {"screen": "PRINT", "lpt1": "LPRINT", "f1": "PRINT #1,", "f2": "PRINT #2,"}[dev]
             lines.append("%s USING %s; %s%s" % (head, lit("$", fmt), "; ".join(lit(t, v) for t, v in values), ";" if trailing else ""))
     lines.append("CLOSE")
+    for s in stmts:
+        if s[0] == "print":
+            for it in s[2]:
+                if it[0] == "f":
+                    lines.append("FUNCTION " + it[1])
+                    lines.append("  " + print_stmt(it[3][1], it[3][2]))
+                    lines.append("  %s = %d" % (it[1], it[2]))
+                    lines.append("END FUNCTION")
     return "\n".join(lines) + "\n"
 
 
@@ -378,7 +403,7 @@ def model_program(stmts):
     devs = {d: Dev() for d in DEVS}
     for s in stmts:
         if s[0] == "print":
-            model_print(devs[s[1]], s[2])
+            model_print(devs[s[1]], s[2], devs)
         else:
             err = model_using(devs[s[1]], s[2], s[3], s[4])
             if err is not None:
